@@ -68,7 +68,7 @@ CLAIMS = {
             "width_aware_splitlines calls",
             "Every layout (empty runs, run-less value, double-width at every alignment, zero-width after a full line) x columns "
             "2..5; TLC checks line widths, non-emptiness and that the lines minus admissible paddings are exactly the original "
-            "cells in order.",
+            "cells in order. Single runs of up to 131073 characters are judged on recorded line lengths (JudgeWsplitLong), not cell by cell.",
             TRUST + "Width classes as for C10.", "5/C11"),
     "C15": ("TLA+ reference str semantics (PyStr.tla split/splitlines; Python's own answer logged as environment fact for "
             "delegated methods and regexes): TLC trace validation of real method calls",
@@ -135,7 +135,7 @@ CLAIMS = {
             "The real Input runs on a pty with curtsies.input's time/select/os replaced by deterministic doubles; TLC-generated "
             "and seeded schedules (arrivals, bursts across the 1024-byte read, unget, three trigger kinds, split thread-safe "
             "callbacks, real SIGINTs, ticks, timeouts 0/2/None, paste thresholds 8/1/None) end with a drain; TLC checks "
-            "once-in-order delivery per source, scheduled-event timing and order, no blocking/None while deliverable, None not "
+            "once-in-order delivery per source, handed-over bytes after what the Input had read before (HandedOverBytesInArrivalOrder), scheduled-event timing and order, no blocking/None while deliverable, None not "
             "before the timeout, paste events. The design model found the early-None defect (two stale wake-ups) that was then "
             "reproduced on the real code and fixed.",
             TRUST + "Interleavings are exhaustive in the model and replayed at the code's own yield points (select/time/read); "
